@@ -274,6 +274,9 @@ func (m *Machine) snapWalk(v Value, sb *strings.Builder, sn *SnapVal, seen map[*
 		sb.WriteString("ctx")
 	case OpaqueVal:
 		sb.WriteString("opaque:" + x.tag)
+	case FloatVal:
+		sb.WriteString("float64:")
+		m.snapWalk(x.t, sb, sn, seen, depth+1)
 	case *kvDB:
 		x.snap(m, sb, sn, seen, depth)
 	case *Blob:
